@@ -58,6 +58,27 @@ def independent_elements(case, ctx):
                 raise Violation("vmap:constraint-leaks", f"constraining {p} changed element {q[0]}'s choice at {q}: {got!r} vs {v!r} (same key)", case)
     if ctx is not None:
         ctx.count("metamorphic:other-elements-unchanged")
+    # a whole-vector constraint (slice address) overridden at one index: element i holds the override,
+    # every other element the vector entry; weight = log-density of all constrained choices
+    import jax.numpy as jnp
+    from genjax import ChoiceMapBuilder as C
+
+    rest = p[1:]
+    sites = [q for q in brun.visited if q[1:] == rest]
+    name0 = brun.dist_info[p][0]
+    if len(sites) == n and name0 in ("normal", "laplace") and all(brun.dist_info[q][0] == name0 for q in sites) and not any(isinstance(c, int) for c in rest):
+        vec = [float(gfi.value_for(name0, None, 0.1 + 0.15 * j)) for j in range(n)]
+        ov = float(gfi.value_for(name0, None, 0.93))
+        base = C[(slice(None), *rest)].set(jnp.asarray(vec, dtype=jnp.float32))
+        chm2 = base.at[(i, *rest)].set(jnp.asarray(ov, dtype=jnp.float32))
+        tr2, w2 = gf.importance(k0, chm2, jargs)
+        exp = {(j,) + tuple(rest): np.float32(ov if j == i else vec[j]) for j in range(n)}
+        run2, _fr = gfi.check_trace_against_model(tr2, node, nargs, exp, "vmap:override-in-vector-constraint:", case, Violation, allow_fresh=True)
+        ew = sum(lp for (q, _v, lp) in run2.terms if q in exp)
+        if not gfi.close(gfi.fval(w2), ew, gfi.score_tol(run2)):
+            raise Violation("vmap:override-in-vector-constraint:weight", f"weight {gfi.fval(w2)!r} != {ew!r}", case)
+        if ctx is not None:
+            ctx.count("constraint:slice-overridden-at-index")
 
 
 _check, _run, replay = gfi_hist.make_prop(CFG, CHECKS, kinds=TOP, nontrivial=nontrivial, pre=independent_elements)
